@@ -75,7 +75,8 @@ _c('C18', 'Proved: the update order is non-queued first then queued sorted by th
    'Coq proof: processing order (sortedness, permutation) + monotone plug counts over the queued pass + correspondence + FIFO trace monitor')
 _c('C19', 'Proved: each state-changing primitive files exactly one event carrying exactly the change (move distance = odometer growth, charge energy = level rise, price = amount moved, pickup stamped at the '
           'step start). Proved over ALL finite histories, any controller (C19_events_explain_vehicles): per vehicle the move events\' distances sum to the odometer growth and the charge events\' energies to the growth of energy_gained; '
-          'pickup / cancel / add events vs the waiting map: C03_ledger_over_histories. PARTIAL: station-load events, summary counts and the file round-trip decided by the log engine + monitors.',
+          'pickup / cancel / add events vs the waiting map: C03_ledger_over_histories. Station load and summary: proved on a hand model of construct_station_load_events / StatsHandler.handle (any batch: one record per station of the simulation or of a charge event, energy = that batch\'s charge events there; any batch sequence: counters = numbers of add / cancel events), tied to the two real functions by eng_reports on generated batches. '
+          'PARTIAL: the json-lines file round-trip is decided by the log engine + monitors.',
    'Coq proof: event/state lemmas + event-log accounting over operation histories (macro frame theorem); correspondence on event multisets; monitors; event.log engine')
 _c('C20', 'Proved: regenerated time_in_range is start-inclusive/end-exclusive with wrap-around and empty when start=end; time of day periodic; a driver update sets availability to the schedule verdict at the '
           'step start and files an event exactly on a flip. Proved for whole steps and runs, instruction lists of any controller (C20_step_follows_schedule, C20_run_follows_schedule): after the driver updates of a step '
